@@ -315,18 +315,28 @@ def o_rife(case, ctx):
     from sktime.transformations.panel.summarize import RandomIntervalFeatureExtractor
 
     cells, X = panel(case)
+    from sktime.utils.slope_and_trend import _slope as sk_slope
+
     feats = {"default": None, "mean_std": [np.mean, np.std], "mean_std_max": [np.mean, np.std, np.max],
-             "user": [value_range, np.mean, last_minus_first]}[case["features"]]
-    t = RandomIntervalFeatureExtractor(n_intervals=case["k"], features=feats, random_state=case["seed"] % 1000)
+             "user": [value_range, np.mean, last_minus_first],
+             "mean_std_slope": [np.mean, np.std, sk_slope]}[case["features"]]  # the features of the time series forest
+    kw = {"max_length": case["max_length"]} if case.get("max_length") else {}
+    t = RandomIntervalFeatureExtractor(n_intervals=case["k"], features=feats, random_state=case["seed"] % 1000, **kw)
     ctx.mark_nontrivial(feats is not None)
     r = run(t, X, case=case)
     if isinstance(r, Raised):
         return [D("raised:rife:%s" % r.type, r.msg)]
     iv = [(int(s), int(e)) for s, e in t.intervals_]
-    fl = feats or [np.mean]
-    exp = np.array([[f(row[0][s:e]) for f in fl for (s, e) in iv] for row in cells], dtype=float)
+    fl = [(_slope if f is sk_slope else f) for f in (feats or [np.mean])]  # the least-squares slope, written out above
+    exp = np.array([[f(np.asarray(row[0][s:e], dtype=float)) for f in fl for (s, e) in iv] for row in cells], dtype=float)
     got = np.asarray(r, dtype=float)
-    if got.shape != exp.shape or not np.allclose(got, exp, rtol=1e-9, atol=1e-12):
+    if kw:
+        ctx.label("max_length=%d" % case["max_length"])
+        if any(e - s > case["max_length"] for s, e in iv):
+            return [D("interval_longer_than_max_length:rife", "max_length=%d intervals %s" % (case["max_length"], iv))]
+    if any(e - s == 2 for s, e in iv):
+        ctx.label("two_point_interval")
+    if got.shape != exp.shape or not np.allclose(got, exp, rtol=1e-9, atol=1e-9 if case["features"] == "mean_std_slope" else 1e-12):
         return [D("values:rife", "intervals %s got %s expected %s" % (iv, got.tolist(), exp.tolist()))]
     return []
 
@@ -660,7 +670,8 @@ def subchecks():
         S("interval_segmenter", o_iseg, panel_cases(max_c=1, min_len=4, extra={"intervals_kind": st.sampled_from(["int", "array"]), "k": i(1, 6)})),
         S("random_interval_segmenter", o_riseg, panel_cases(max_c=1, min_len=4, extra={"k": i(1, 4)})),
         S("sliding_window_segmenter", o_swseg, panel_cases(max_c=1, extra={"window_length": i(1, 8)})),
-        S("random_interval_features", o_rife, panel_cases(max_c=1, min_len=4, extra={"k": i(1, 4), "features": st.sampled_from(["default", "mean_std", "mean_std_max", "user", "user"])})),
+        S("random_interval_features", o_rife, panel_cases(max_c=1, min_len=4, extra={"k": i(1, 4), "features": st.sampled_from(["default", "mean_std", "mean_std_max", "user", "user", "mean_std_slope", "mean_std_slope"]),
+                                                                                          "max_length": st.sampled_from([None, None, 3, 4, 6])})),
         S("row_transformers", o_rows, panel_cases()),
         S("row_count_and_order", o_rowcount, panel_cases(min_len=12), q=100),
         S("imputer", o_imputer, imputer_cases(), q=800),
